@@ -43,7 +43,13 @@ func vpC03Target(cmd string) *core.BuildTarget {
 // a build happened: output and metadata exist and carry the hash record
 func vpC03Built(state *core.BuildState, t *core.BuildTarget, src, out string) {
 	vpMkFile("p/s.txt", src, 0o644)
-	vpMkFile("plz-out/gen/p/o", out, 0o644)
+	// the output is a file or (solver choice) a directory holding a file
+	if vpNondetBool("output-is-a-directory") {
+		vpMkDir("plz-out/gen/p/o")
+		vpMkFile("plz-out/gen/p/o/f", out, 0o644)
+	} else {
+		vpMkFile("plz-out/gen/p/o", out, 0o644)
+	}
 	vpMkFile(targetBuildMetadataFileName(t), "md", 0o644)
 	if err := writeRuleHash(state, t); err != nil {
 		panic(err)
